@@ -192,7 +192,7 @@ TEnd ==
 ---------------------------------------------------------------------------
 (* events without effect on the model *)
 
-StutterNames == {"Open", "ManifestSnapshot",
+StutterNames == {"Open", "OpenRefused", "ManifestSnapshot",
                  "CompactCall", "CompactRet", "FlushCall", "FlushRet", "Close", "Closing",
                  "CloseRet", "RecoverWal", "BadState", "Fault", "BgBegin", "DescrCall", "DescrRet",
                  "BgEnd", "TableOpen"}
